@@ -151,6 +151,32 @@ static void life_case(uint64_t idx)
         VH_COUNT("many_objects_alive_rounds", 1); VH_MAXC("max_objects_alive_at_once", NOBJ);
         if (bad >= 0) { snprintf(d, sizeof(d), "{\"objects_alive\":%d,\"first_wrong_object\":%d,\"cipher\":\"%s\"}", NOBJ, bad, c->name); snprintf(nm, sizeof(nm), "C15:%s:object-affected-by-other-live-objects", c->name); viol(nm, idx, d); }
     }
+    if (wipe_mode && idx % 25 == 11) {
+        /* a couple of hundred objects of all kinds alive at once (all keyed, all used), then cleaned up in a scrambled order:
+           every block released on the way is scanned at its free() like any other */
+        enum { NMANY = 220 };
+        static vh_handle HM[NMANY]; static uint8_t kindm[NMANY];
+        int k, be = (int)((idx / 25) % 3); uint8_t key[48], buf[160];
+        const vh_cipher *c0 = &vh_ciphers[(idx / 75) % CIPH_N];
+        memset(key, 0xFF, sizeof(key)); memset(buf, 0x5C, sizeof(buf));
+        am_mark(MAXOBJ - 1, -1); is_par[MAXOBJ - 1] = 0; OB[MAXOBJ - 1].cap = be > maxbe[c0->id] ? maxbe[c0->id] : be; OB[MAXOBJ - 1].id = MAXOBJ - 1; CH[MAXOBJ - 1].c = c0;
+        if (K < MAXOBJ) K = MAXOBJ;
+        vh_set_crash_key("C17:many-objects-alive");
+        vh_call_begin("many objects alive");
+        for (k = 0; k < NMANY; ++k) {
+            const vh_cipher *c = (k % 4 == 3) ? &vh_ciphers[k % CIPH_N] : c0; int par = (k % 7 == 5);
+            kindm[k] = (uint8_t)(c->id * 2 + par); memset(&HM[k], 0, sizeof(HM[k]));
+            vh_set_cap(be > maxbe[c->id] ? maxbe[c->id] : be);
+            if (par) { c->par_init(&HM[k]); c->par_set_key(&HM[k], key, 16, 8, MANTIS_ENCRYPT); c->par_encrypt(buf, buf, buf + 80, 3 * c->bb, &HM[k]); }
+            else { c->ctr_init(&HM[k]); c->ctr_set_key(&HM[k], key, 16, 8); c->ctr_set_counter(&HM[k], key, c->bb); c->ctr_encrypt(buf, buf, 37, &HM[k]); }
+        }
+        vh_call_end();
+        am_nonzero_live(MAXOBJ - 1);
+        vh_call_begin("cleanup of many objects");
+        for (k = 0; k < NMANY; ++k) { int q = (k * 97) % NMANY; const vh_cipher *c = &vh_ciphers[kindm[q] / 2]; if (kindm[q] & 1) c->par_cleanup(&HM[q]); else c->ctr_cleanup(&HM[q]); }
+        vh_call_end();
+        VH_COUNT("many_objects_alive_rounds", 1); VH_MAXC("max_objects_alive_at_once", NMANY);
+    }
     if (wipe_mode && idx % 25 == 3) {
         /* bulk usage: requests of 64 KiB..300 KiB that grow, then thousands of small requests, then cleanup:
            any scratch memory the library allocates, resizes or drops on the way is scanned at its free() as well */
@@ -377,11 +403,46 @@ static void c16_case(uint64_t idx)
     if (par) c->par_cleanup(&B); else c->ctr_cleanup(&B);
 }
 
+/* --starve 1: a resource-starved process.  RLIMIT_MEMLOCK is zero and mlock/mlock2/mlockall fail with ENOMEM (seccomp), as for an
+   unprivileged process whose locked-memory budget is used up: optional hardening inside the library then does not happen,
+   which must not change what is wiped or released. */
+#include <sys/prctl.h>
+#include <sys/resource.h>
+#include <linux/seccomp.h>
+#include <linux/filter.h>
+#include <linux/audit.h>
+#include <sys/syscall.h>
+#include <stddef.h>
+static int starve(void)
+{
+    struct rlimit rl = {0, 0};
+    struct sock_filter f[] = {
+        BPF_STMT(BPF_LD | BPF_W | BPF_ABS, offsetof(struct seccomp_data, arch)),
+        BPF_JUMP(BPF_JMP | BPF_JEQ | BPF_K, AUDIT_ARCH_X86_64, 0, 5),
+        BPF_STMT(BPF_LD | BPF_W | BPF_ABS, offsetof(struct seccomp_data, nr)),
+        BPF_JUMP(BPF_JMP | BPF_JEQ | BPF_K, SYS_mlock, 2, 0),
+        BPF_JUMP(BPF_JMP | BPF_JEQ | BPF_K, SYS_mlock2, 1, 0),
+        BPF_JUMP(BPF_JMP | BPF_JEQ | BPF_K, SYS_mlockall, 0, 1),
+        BPF_STMT(BPF_RET | BPF_K, SECCOMP_RET_ERRNO | 12 /* ENOMEM */),
+        BPF_STMT(BPF_RET | BPF_K, SECCOMP_RET_ALLOW),
+    };
+    struct sock_fprog prog = {(unsigned short)(sizeof(f) / sizeof(f[0])), f};
+    setrlimit(RLIMIT_MEMLOCK, &rl);
+    if (prctl(PR_SET_NO_NEW_PRIVS, 1, 0, 0, 0)) return 0;
+    if (prctl(PR_SET_SECCOMP, SECCOMP_MODE_FILTER, &prog)) return 0;
+    { static char pg[4096]; if (mlock(pg, 4096) == 0) { munlock(pg, 4096); return 0; } }      /* positive control: locking must now fail */
+    return 1;
+}
+
 int main(int argc, char **argv)
 {
     int i;
     vh_init(argc, argv);
     prop = vh_getarg("prop", "C15");
+    if (atoi(vh_getarg("starve", "0"))) {
+        if (!starve()) { printf("{\"type\":\"inconclusive\",\"reason\":\"cannot install the mlock-failing seccomp filter\"}\n"); return 2; }
+        *vh_counter_ref("max_runs_with_mlock_failing") = 1;
+    }
     if (ref_selftest()) { printf("{\"type\":\"harness_error\",\"detail\":\"ref selftest\"}\n"); return 2; }
     vh_guard_init();
     vh_install_fault_handler();
